@@ -123,11 +123,11 @@ theorem resolvedBlock_at {nd : Node} {id : BlockId} {b : Block} (wf : WellFormed
 
 theorem blockWithTxHashes_eq {ver : Ver} {nd : Node} {id : BlockId} (wf : WellFormed nd)
     (hv : ¬ (ver = .v8 ∧ id = .l1Accepted)) :
-    blockWithTxHashes ver nd id =
+    blockWithTxHashesStored ver nd id =
       match resolvedBlock nd id with
       | some b => .blockHashes (hdrOf nd b) (b.txs.map (·.hash))
       | none => .err .blockNotFound := by
-  unfold blockWithTxHashes
+  unfold blockWithTxHashesStored
   rw [blockById_eq ver nd id hv]
   cases h : resolvedBlock nd id with
   | none => rfl
@@ -137,11 +137,11 @@ theorem blockWithTxHashes_eq {ver : Ver} {nd : Node} {id : BlockId} (wf : WellFo
 
 theorem blockWithTxs_eq {ver : Ver} {nd : Node} {id : BlockId} (wf : WellFormed nd)
     (hv : ¬ (ver = .v8 ∧ id = .l1Accepted)) :
-    blockWithTxs ver nd id =
+    blockWithTxsStored ver nd id =
       match resolvedBlock nd id with
       | some b => .blockTxs (hdrOf nd b) b.txs
       | none => .err .blockNotFound := by
-  unfold blockWithTxs
+  unfold blockWithTxsStored
   rw [blockById_eq ver nd id hv]
   cases h : resolvedBlock nd id with
   | none => rfl
@@ -151,16 +151,16 @@ theorem blockWithTxs_eq {ver : Ver} {nd : Node} {id : BlockId} (wf : WellFormed 
 
 theorem blockWithReceipts_eq {ver : Ver} {nd : Node} {id : BlockId}
     (hv : ¬ (ver = .v8 ∧ id = .l1Accepted)) :
-    blockWithReceipts ver nd id =
+    blockWithReceiptsStored ver nd id =
       match resolvedBlock nd id with
       | some b => .blockReceipts (hdrOf nd b) (b.txs.map (fun t => (t, finality b.number nd.l1)))
       | none => .err .blockNotFound := by
-  unfold blockWithReceipts
+  unfold blockWithReceiptsStored
   rw [blockById_eq ver nd id hv]
   cases h : resolvedBlock nd id <;> rfl
 
 theorem stateUpdate_eq_blockById (ver : Ver) (nd : Node) (id : BlockId) (f : List Nat) :
-    stateUpdate ver nd id f =
+    stateUpdateStored ver nd id f =
       match blockById ver nd id with
       | .error e => .err e
       | .ok b => .update b.hash b.root b.oldRoot (filterDiff ver f b.diff) := by
@@ -168,7 +168,7 @@ theorem stateUpdate_eq_blockById (ver : Ver) (nd : Node) (id : BlockId) (f : Lis
 
 theorem stateUpdate_eq {ver : Ver} {nd : Node} {id : BlockId} (f : List Nat)
     (hv : ¬ (ver = .v8 ∧ id = .l1Accepted)) :
-    stateUpdate ver nd id f =
+    stateUpdateStored ver nd id f =
       match resolvedBlock nd id with
       | some b => .update b.hash b.root b.oldRoot (filterDiff ver f b.diff)
       | none => .err .blockNotFound := by
@@ -182,32 +182,32 @@ theorem resolvedBlock_number (nd : Node) (n : Nat) :
 
 theorem blockTransactionCount_eq {ver : Ver} {nd : Node} {id : BlockId}
     (hv : ¬ (ver = .v8 ∧ id = .l1Accepted)) :
-    blockTransactionCount ver nd id =
+    blockTransactionCountStored ver nd id =
       match resolvedBlock nd id with
       | some b => .num b.txs.length
       | none => .err .blockNotFound := by
   cases ver with
   | v8 =>
-    simp only [blockTransactionCount]
+    simp only [blockTransactionCountStored]
     rw [blockById_eq .v8 nd id hv]
     cases h : resolvedBlock nd id <;> rfl
   | v9 =>
     cases id with
     | number n =>
-      simp only [blockTransactionCount, txCountByNumber, blockByNumber, resolvedBlock_number]
+      simp only [blockTransactionCountStored, txCountByNumber, blockByNumber, resolvedBlock_number]
       cases nd.chain[n]? <;> rfl
     | hash x =>
-      simp only [blockTransactionCount, txCountByNumber, blockByNumber, numberByHash, resolvedBlock, resolve]
+      simp only [blockTransactionCountStored, txCountByNumber, blockByNumber, numberByHash, resolvedBlock, resolve]
       cases List.findIdx? (fun b => b.hash == x) nd.chain with
       | none => rfl
       | some n => simp only [Option.bind]; cases nd.chain[n]? <;> rfl
     | latest =>
-      simp only [blockTransactionCount, txCountByNumber, blockByNumber, height, resolvedBlock, resolve]
+      simp only [blockTransactionCountStored, txCountByNumber, blockByNumber, height, resolvedBlock, resolve]
       by_cases h : nd.chain.isEmpty
       · simp [h]
       · simp only [if_neg h, Option.bind]; cases nd.chain[nd.chain.length - 1]? <;> rfl
     | l1Accepted =>
-      simp only [blockTransactionCount, txCountByNumber, blockByNumber, l1AcceptedNumber_eq, resolvedBlock]
+      simp only [blockTransactionCountStored, txCountByNumber, blockByNumber, l1AcceptedNumber_eq, resolvedBlock]
       cases resolve nd .l1Accepted with
       | none => rfl
       | some n => simp only [Option.bind]; cases nd.chain[n]? <;> rfl
@@ -215,20 +215,20 @@ theorem blockTransactionCount_eq {ver : Ver} {nd : Node} {id : BlockId}
   | v10 =>
     cases id with
     | number n =>
-      simp only [blockTransactionCount, txCountByNumber, blockByNumber, resolvedBlock_number]
+      simp only [blockTransactionCountStored, txCountByNumber, blockByNumber, resolvedBlock_number]
       cases nd.chain[n]? <;> rfl
     | hash x =>
-      simp only [blockTransactionCount, txCountByNumber, blockByNumber, numberByHash, resolvedBlock, resolve]
+      simp only [blockTransactionCountStored, txCountByNumber, blockByNumber, numberByHash, resolvedBlock, resolve]
       cases List.findIdx? (fun b => b.hash == x) nd.chain with
       | none => rfl
       | some n => simp only [Option.bind]; cases nd.chain[n]? <;> rfl
     | latest =>
-      simp only [blockTransactionCount, txCountByNumber, blockByNumber, height, resolvedBlock, resolve]
+      simp only [blockTransactionCountStored, txCountByNumber, blockByNumber, height, resolvedBlock, resolve]
       by_cases h : nd.chain.isEmpty
       · simp [h]
       · simp only [if_neg h, Option.bind]; cases nd.chain[nd.chain.length - 1]? <;> rfl
     | l1Accepted =>
-      simp only [blockTransactionCount, txCountByNumber, blockByNumber, l1AcceptedNumber_eq, resolvedBlock]
+      simp only [blockTransactionCountStored, txCountByNumber, blockByNumber, l1AcceptedNumber_eq, resolvedBlock]
       cases resolve nd .l1Accepted with
       | none => rfl
       | some n => simp only [Option.bind]; cases nd.chain[n]? <;> rfl
@@ -243,19 +243,19 @@ INVALID_TXN_INDEX past its end, BLOCK_NOT_FOUND when nothing is denoted — exce
 `block_number` above the height is answered with INVALID_TXN_INDEX. -/
 theorem transactionByBlockIdAndIndex_eq {ver : Ver} {nd : Node} {id : BlockId} (i : Nat)
     (wf : WellFormed nd) (hv : ¬ (ver = .v8 ∧ id = .l1Accepted)) :
-    transactionByBlockIdAndIndex ver nd id i =
+    transactionByBlockIdAndIndexStored ver nd id i =
       match resolvedBlock nd id with
       | some b => (match b.txs[i]? with | some t => .tx t | none => .err .invalidTxIndex)
       | none => if id.isNumber then .err .invalidTxIndex else .err .blockNotFound := by
   cases id with
   | number n =>
-    simp only [transactionByBlockIdAndIndex, txByNumberAndIndex, blockByNumber, resolvedBlock_number,
+    simp only [transactionByBlockIdAndIndexStored, txByNumberAndIndex, blockByNumber, resolvedBlock_number,
       BlockId.isNumber]
     cases nd.chain[n]? with
     | none => rfl
     | some b => simp only [Option.bind]; cases b.txs[i]? <;> rfl
   | hash x =>
-    simp only [transactionByBlockIdAndIndex, txByNumberAndIndex, blockByNumber, numberByHash,
+    simp only [transactionByBlockIdAndIndexStored, txByNumberAndIndex, blockByNumber, numberByHash,
       resolvedBlock, resolve, BlockId.isNumber]
     cases hf : List.findIdx? (fun b => b.hash == x) nd.chain with
     | none => rfl
@@ -270,7 +270,7 @@ theorem transactionByBlockIdAndIndex_eq {ver : Ver} {nd : Node} {id : BlockId} (
       by_cases h : nd.chain.isEmpty
       · simp [h]
       · simp only [h]; rfl
-    simp only [transactionByBlockIdAndIndex, e, BlockId.isNumber]
+    simp only [transactionByBlockIdAndIndexStored, e, BlockId.isNumber]
     cases h : resolvedBlock nd .latest with
     | none => rfl
     | some b =>
@@ -297,11 +297,11 @@ theorem transactionByBlockIdAndIndex_eq {ver : Ver} {nd : Node} {id : BlockId} (
     | v8 => exact absurd rfl hv'
     | v9 =>
       rw [← key]
-      simp only [transactionByBlockIdAndIndex]
+      simp only [transactionByBlockIdAndIndexStored]
       cases l1AcceptedNumber nd <;> rfl
     | v10 =>
       rw [← key]
-      simp only [transactionByBlockIdAndIndex]
+      simp only [transactionByBlockIdAndIndexStored]
       cases l1AcceptedNumber nd <;> rfl
   | pre => rfl
 
@@ -475,7 +475,9 @@ theorem store_wellFormed {nd nd' : Node} {b : Block} (wf : WellFormed nd) (hs : 
     WellFormed nd' := by
   unfold store at hs
   split at hs
-  · rename_i hsucc
+  · rename_i hsucc0
+    have hsucc : succeeds nd b = true := by
+      simp only [Bool.and_eq_true] at hsucc0; exact hsucc0.1
     cases hs
     intro i x hx
     simp only at hx
@@ -553,7 +555,9 @@ theorem store_linked {nd nd' : Node} {b : Block} (lk : Linked nd) (hs : store nd
     Linked nd' := by
   unfold store at hs
   split at hs
-  · rename_i hsucc
+  · rename_i hsucc0
+    have hsucc : succeeds nd b = true := by
+      simp only [Bool.and_eq_true] at hsucc0; exact hsucc0.1
     cases hs
     intro i x hx
     simp only at hx ⊢
@@ -764,5 +768,331 @@ theorem storageAt_eq (be : Backend) (ver : Ver) (nd : Node) (id : BlockId) (a k 
         · exact h0
         · exact absurd (hd h0) hdp
       cases ver <;> by_cases hl : id = .latest <;> simp [hdp, hv0, hl]
+
+/-! ### storage only lives in contracts: an invariant of every reachable node -/
+
+/-- Every stored block's storage diff addresses contracts that exist by then. -/
+def StorageInv (nd : Node) : Prop :=
+  ∀ (i : Nat) (b : Block), nd.chain[i]? = some b →
+    ∀ e ∈ b.diff.storage, isSystemContract e.1 = true ∨ deployedIn (nd.chain.take (i + 1)) e.1 = true
+
+theorem storageInv_empty : StorageInv ({} : Node) := by
+  intro i b h; simp at h
+
+theorem store_storageInv {nd nd' : Node} {b : Block} (inv : StorageInv nd) (hs : store nd b = some nd') :
+    StorageInv nd' := by
+  unfold store at hs
+  split at hs
+  · rename_i hsucc0
+    have hok : storageOk nd b = true := by
+      simp only [Bool.and_eq_true] at hsucc0; exact hsucc0.2
+    cases hs
+    intro i x hx e he
+    simp only at hx ⊢
+    by_cases hi : i < nd.chain.length
+    · rw [List.getElem?_append_left hi] at hx
+      have := inv i x hx e he
+      rw [List.take_append_of_le_length (by omega)]
+      exact this
+    · rw [List.getElem?_append_right (by omega)] at hx
+      have hi0 : i - nd.chain.length = 0 := by
+        cases hlen : i - nd.chain.length with
+        | zero => rfl
+        | succ k => rw [hlen] at hx; simp at hx
+      rw [hi0] at hx
+      simp at hx
+      subst hx
+      have hil : i = nd.chain.length := by omega
+      have htake : ∀ y : Block, (nd.chain ++ [y]).take (i + 1) = nd.chain ++ [y] := by
+        intro y; apply List.take_of_length_le; simp; omega
+      rw [htake]
+      unfold storageOk at hok
+      rw [List.all_eq_true] at hok
+      have := hok e he
+      simpa [Bool.or_eq_true] using this
+  · cases hs
+
+theorem revert_storageInv {nd nd' : Node} (inv : StorageInv nd) (hr : revert nd = some nd') :
+    StorageInv nd' := by
+  unfold revert at hr
+  split at hr
+  · cases hr
+  · cases hr
+    intro i x hx e he
+    simp only at hx ⊢
+    rw [List.getElem?_dropLast] at hx
+    split at hx
+    · rename_i hlt
+      have := inv i x hx e he
+      rw [List.dropLast_eq_take, List.take_take]
+      have : min (i + 1) (nd.chain.length - 1) = i + 1 := by omega
+      rw [this]
+      assumption
+    · cases hx
+
+theorem applyOp_storageInv {nd : Node} (op : Op) (inv : StorageInv nd) : StorageInv (applyOp nd op) := by
+  cases op with
+  | store b =>
+    simp only [applyOp]
+    cases h : store nd b with
+    | none => exact inv
+    | some nd' => exact store_storageInv inv h
+  | revert =>
+    simp only [applyOp]
+    cases h : revert nd with
+    | none => exact inv
+    | some nd' => exact revert_storageInv inv h
+  | setL1 l => exact inv
+
+theorem foldl_storageInv (ops : List Op) (nd : Node) (inv : StorageInv nd) :
+    StorageInv (ops.foldl applyOp nd) := by
+  induction ops generalizing nd with
+  | nil => exact inv
+  | cons op ops ih => exact ih _ (applyOp_storageInv op inv)
+
+theorem run_storageInv (ops : List Op) : StorageInv (run ops) := foldl_storageInv ops _ storageInv_empty
+
+theorem storageIn_ne_zero {bs : List Block} {a k : Nat} (h : storageIn bs a k ≠ 0) :
+    ∃ b ∈ bs, ∃ e ∈ b.diff.storage, e.1 = a := by
+  unfold storageIn at h
+  cases hf : bs.reverse.findSome? (fun b => lookup3 b.diff.storage a k) with
+  | none => simp [hf] at h
+  | some v =>
+    obtain ⟨b, hb, hl⟩ := List.exists_of_findSome?_eq_some hf
+    refine ⟨b, by simpa using hb, ?_⟩
+    unfold lookup3 at hl
+    simp only [Option.map_eq_some_iff] at hl
+    obtain ⟨e, he, _⟩ := hl
+    have hm := List.mem_of_find?_eq_some he
+    have hp := List.find?_some he
+    simp only [Bool.and_eq_true, beq_iff_eq] at hp
+    exact ⟨e, hm, hp.1⟩
+
+theorem mem_take_mono {α : Type} {l : List α} {x : α} {m m' : Nat} (h : x ∈ l.take m) (hm : m ≤ m') :
+    x ∈ l.take m' := by
+  have : l.take m = (l.take m').take m := by
+    rw [List.take_take]; congr; omega
+  rw [this] at h
+  exact List.mem_of_mem_take h
+
+/-- On a node satisfying the invariant, a non-zero slot value at block `n` implies the contract
+exists at block `n` — the side condition of `storageAt_eq`. -/
+theorem storage_in_contracts {nd : Node} (inv : StorageInv nd) (n a k : Nat)
+    (h : storageIn (stateBlocks nd n) a k ≠ 0) : deployedIn (stateBlocks nd n) a = true := by
+  obtain ⟨b, hb, e, he, hea⟩ := storageIn_ne_zero h
+  unfold stateBlocks at hb ⊢
+  obtain ⟨j, hj⟩ := List.getElem?_of_mem hb
+  have hjn : j < n + 1 := by
+    have := (List.getElem?_eq_some_iff.mp hj).1
+    simp at this; omega
+  have hjc : nd.chain[j]? = some b := by
+    rw [List.getElem?_take] at hj
+    simpa [hjn] using hj
+  rcases inv j b hjc e he with hsys | hdep
+  · unfold deployedIn
+    rw [List.any_eq_true]
+    refine ⟨b, hb, ?_⟩
+    unfold deploysInDiff
+    rw [← hea]
+    simp only [Bool.or_eq_true, Bool.and_eq_true]
+    right
+    refine ⟨hsys, ?_⟩
+    rw [List.any_eq_true]
+    exact ⟨e, he, by simp⟩
+  · rw [hea] at hdep
+    unfold deployedIn at hdep ⊢
+    rw [List.any_eq_true] at hdep ⊢
+    obtain ⟨x, hx, hxd⟩ := hdep
+    exact ⟨x, mem_take_mono hx (by omega), hxd⟩
+
+/-! ### completeness of the by-hash lookups when transaction hashes are distinct -/
+
+theorem nodup_getElem?_inj {α : Type} : ∀ (l : List α) (i j : Nat) (x : α), l.Nodup →
+    l[i]? = some x → l[j]? = some x → i = j := by
+  intro l
+  induction l with
+  | nil => intro i j x _ h; simp at h
+  | cons a as ih =>
+    intro i j x hn hi hj
+    rw [List.nodup_cons] at hn
+    cases i with
+    | zero =>
+      cases j with
+      | zero => rfl
+      | succ j' =>
+        simp at hi hj
+        subst hi
+        exact absurd (List.mem_of_getElem? hj) hn.1
+    | succ i' =>
+      cases j with
+      | zero =>
+        simp at hi hj
+        subst hj
+        exact absurd (List.mem_of_getElem? hi) hn.1
+      | succ j' =>
+        simp at hi hj
+        rw [ih i' j' x hn.2 hi hj]
+
+theorem nodup_flatMap_each {α β : Type} (f : α → List β) : ∀ (l : List α), (l.flatMap f).Nodup →
+    ∀ a ∈ l, (f a).Nodup := by
+  intro l
+  induction l with
+  | nil => intro _ a ha; cases ha
+  | cons x xs ih =>
+    intro hn a ha
+    rw [List.flatMap_cons, List.nodup_append] at hn
+    rcases List.mem_cons.mp ha with h | h
+    · rw [h]; exact hn.1
+    · exact ih hn.2.1 a h
+
+theorem nodup_flatMap_index {α β : Type} (f : α → List β) : ∀ (l : List α), (l.flatMap f).Nodup →
+    ∀ (n n' : Nat) (a a' : α) (x : β), l[n]? = some a → l[n']? = some a' → x ∈ f a → x ∈ f a' → n = n' := by
+  intro l
+  induction l with
+  | nil => intro _ n n' a a' x h; simp at h
+  | cons y ys ih =>
+    intro hn n n' a a' x h h' hx hx'
+    rw [List.flatMap_cons, List.nodup_append] at hn
+    cases n with
+    | zero =>
+      cases n' with
+      | zero => rfl
+      | succ m' =>
+        simp at h h'
+        subst h
+        have : x ∈ ys.flatMap f := List.mem_flatMap.mpr ⟨a', List.mem_of_getElem? h', hx'⟩
+        exact absurd rfl (hn.2.2 x hx x this)
+    | succ m =>
+      cases n' with
+      | zero =>
+        simp at h h'
+        subst h'
+        have : x ∈ ys.flatMap f := List.mem_flatMap.mpr ⟨a, List.mem_of_getElem? h, hx⟩
+        exact absurd rfl (hn.2.2 x hx' x this)
+      | succ m' =>
+        simp at h h'
+        rw [ih hn.2.1 m m' a a' x h h' hx hx']
+
+/-- With distinct transaction hashes the hash index leads to exactly the position of the
+transaction. -/
+theorem findTx_complete {nd : Node} {n i : Nat} {b : Block} {t : Tx} (wf : WellFormed nd)
+    (hd : TxHashesDistinct nd) (hb : nd.chain[n]? = some b) (ht : b.txs[i]? = some t) :
+    numberAndIndexByTxHash nd t.hash = some (n, i) := by
+  unfold numberAndIndexByTxHash
+  cases hf : findTx nd.chain t.hash with
+  | none =>
+    rw [findTx_none_iff] at hf
+    exact absurd rfl (hf b (List.mem_of_getElem? hb) t (List.mem_of_getElem? ht))
+  | some p =>
+    obtain ⟨n', i'⟩ := p
+    obtain ⟨b', hb', hn', t', ht', hh⟩ := findTx_some hf
+    obtain ⟨j, hj⟩ := List.getElem?_of_mem hb'
+    have hjn : b'.number = j := wf j b' hj
+    have hx : t.hash ∈ b.txs.map (·.hash) := List.mem_map_of_mem (List.mem_of_getElem? ht)
+    have hx' : t.hash ∈ b'.txs.map (·.hash) := by
+      rw [← hh]; exact List.mem_map_of_mem (List.mem_of_getElem? ht')
+    have hnj : n = j := nodup_flatMap_index _ _ hd n j b b' t.hash hb hj hx hx'
+    subst hnj
+    have hbb : b = b' := by rw [hb] at hj; exact Option.some.inj hj
+    subst hbb
+    have hnd := nodup_flatMap_each _ _ hd b (List.mem_of_getElem? hb)
+    have h1 : (b.txs.map (·.hash))[i]? = some t.hash := by simp [ht]
+    have h2 : (b.txs.map (·.hash))[i']? = some t.hash := by simp [ht', hh]
+    have hii := nodup_getElem?_inj _ i i' t.hash hnd h1 h2
+    subst hii
+    rw [← hn', hjn]
+
+theorem by_hash_complete {nd : Node} {n i : Nat} {b : Block} {t : Tx} (wf : WellFormed nd)
+    (hd : TxHashesDistinct nd) (hb : nd.chain[n]? = some b) (ht : b.txs[i]? = some t) :
+    transactionByHash nd t.hash = .tx t ∧
+      transactionReceipt nd t.hash = .receipt t (finality n nd.l1) n b.hash ∧
+      transactionStatus nd t.hash = .status (finality n nd.l1) t.reverted := by
+  have hf := findTx_complete wf hd hb ht
+  simp [transactionByHash, txByHash, transactionReceipt, transactionStatus, hf, txByNumberAndIndex,
+    txAndBlockHash, blockByNumber, hb, ht]
+
+/-! ### v8 `pending` and the wire layer -/
+
+theorem headBlock_eq (nd : Node) : headBlock nd = resolvedBlock nd .latest := by
+  simp only [headBlock, height, resolvedBlock, resolve]
+  by_cases h : nd.chain.isEmpty
+  · simp [h]
+  · simp only [if_neg h]; rfl
+
+/-- `Handler.Pending` never fails on a non-empty well-formed chain: it is the empty block on top
+of the head, whose diff records the hash of block `n - 10` once `n ≥ 10`; on the empty chain it
+fails. -/
+theorem pendingOf_eq {nd : Node} (wf : WellFormed nd) :
+    pendingOf nd =
+      match resolvedBlock nd .latest with
+      | none => none
+      | some h =>
+        some ⟨h.hash, h.root,
+          if h.number + 1 < blockHashLag then {}
+          else { storage := [(1, h.number + 1 - blockHashLag,
+                  match nd.chain[h.number + 1 - blockHashLag]? with | some b => b.hash | none => 0)] }⟩ := by
+  unfold pendingOf
+  rw [headBlock_eq]
+  cases hh : resolvedBlock nd .latest with
+  | none => rfl
+  | some h =>
+    obtain ⟨hr, hc⟩ := resolvedBlock_at wf hh
+    have hlt := resolve_lt hr
+    simp only []
+    by_cases hl : h.number + 1 < blockHashLag
+    · simp [hl]
+    · have : h.number + 1 - blockHashLag < nd.chain.length := by unfold blockHashLag at *; omega
+      have hs : nd.chain[h.number + 1 - blockHashLag]? = some nd.chain[h.number + 1 - blockHashLag] := by
+        simp [this]
+      simp [hl, blockByNumber, hs]
+
+theorem handlers_eq_stored {ver : Ver} {id : BlockId} (nd : Node) (i : Nat) (f : List Nat)
+    (hp : isV8Pending ver id = false) :
+    blockWithTxHashes ver nd id = blockWithTxHashesStored ver nd id ∧
+    blockWithTxs ver nd id = blockWithTxsStored ver nd id ∧
+    blockWithReceipts ver nd id = blockWithReceiptsStored ver nd id ∧
+    blockTransactionCount ver nd id = blockTransactionCountStored ver nd id ∧
+    transactionByBlockIdAndIndex ver nd id i = transactionByBlockIdAndIndexStored ver nd id i ∧
+    stateUpdate ver nd id f = stateUpdateStored ver nd id f := by
+  simp [blockWithTxHashes, blockWithTxs, blockWithReceipts, blockTransactionCount,
+    transactionByBlockIdAndIndex, stateUpdate, hp]
+
+theorem isV8Pending_false_iff (ver : Ver) (id : BlockId) :
+    isV8Pending ver id = false ↔ ¬ (ver = .v8 ∧ id = .pre) := by
+  cases ver <;> cases id <;> simp [isV8Pending]
+
+theorem decodeId_v8_never_l1 (raw : RawId) (id : BlockId) (h : decodeId .v8 raw = .ok id) :
+    id ≠ .l1Accepted := by
+  cases raw with
+  | tag s =>
+    simp only [decodeId] at h
+    split at h
+    · cases h; simp
+    · split at h
+      · cases h; simp
+      · cases h
+  | obj hh nn =>
+    cases hh <;> cases nn <;> simp [decodeId] at h <;> subst h <;> simp
+  | other => simp [decodeId] at h
+
+/-! ### last update block (v10 INCLUDE_LAST_UPDATE_BLOCK) -/
+
+theorem lastLoggedIn_snoc (bs : List Block) (b : Block) (a k : Nat) :
+    lastLoggedIn (bs ++ [b]) a k =
+      match lookup3 b.diff.storage a k with
+      | some v => if v == 0 && storageIn bs a k == 0 then lastLoggedIn bs a k else b.number
+      | none => lastLoggedIn bs a k := by
+  unfold lastLoggedIn
+  simp only [List.reverse_append, List.reverse_cons, List.reverse_nil, List.nil_append, List.singleton_append,
+    lastLoggedRev, List.reverse_reverse]
+  cases lookup3 b.diff.storage a k <;> rfl
+
+theorem lastTouchedIn_snoc (bs : List Block) (b : Block) (a k : Nat) :
+    lastTouchedIn (bs ++ [b]) a k =
+      if (lookup3 b.diff.storage a k).isSome then b.number else lastTouchedIn bs a k := by
+  unfold lastTouchedIn
+  simp only [List.reverse_append, List.reverse_cons, List.reverse_nil, List.nil_append, List.singleton_append,
+    List.find?_cons]
+  cases h : (lookup3 b.diff.storage a k).isSome <;> simp
 
 end Juno.C08
